@@ -151,6 +151,12 @@ fld_operator = z3.Function('fld_operator', Op, Op)
 cls_of = z3.Function('cls', Op, z3.IntSort())     # class tag: index into the real class table (closed world)
 
 
+# termination of the rule scan: an abstract potential of a chain (for furax's rules: the number of (rotation, HWP)
+# inversions) and the clause "this rule application, returning two operators, decreases it"
+pot = z3.Function('pot', OpArr, z3.IntSort(), z3.IntSort())
+Dec = z3.Function('Dec', Rule, Op, Op, z3.BoolSort())
+
+
 def Red(l, r):
     m = fresh_int('m')
     return z3.Exists([m], z3.And(m >= 0, m < REGLEN, Chk(REG[m], l, r), Apl(REG[m], l, r)))
@@ -498,6 +504,9 @@ class AlgTheory(Theory):
                                                      insize(new.arr[n - 1]) == insize(right))))
                 run.assume(z3.Implies(n == 0, outs(left) == ins(right)))
                 run.assume(z3.Implies(n == 2, ins(new.arr[0]) == outs(new.arr[1])))
+                # termination clause of the rule contract: a rule that does not shorten the chain decreases its potential
+                run.assume(z3.Implies(n == 2, Dec(r, left, right)))
+                run.ghost['last_rule'] = (r, left, right, new)
                 # C07 NF3 needs: rules never return an identity operator inside a longer chain -- NOT assumed here
                 return B.PyList(None, seq=new)
             return PyFunc(apply, 'Rule.apply')
@@ -569,6 +578,13 @@ class AlgTheory(Theory):
             return
         n0, nn, nr = to_z3(cur.length), to_z3(new.length), to_z3(res.length)
         lo, hi = to_z3(lo), to_z3(hi)
+        lr = run.ghost.get('last_rule')
+        if lr is not None and getattr(lr[3], 'arr', None) is not None and z3.eq(lr[3].arr, an):
+            r_, l_, rr_, _ = lr
+            # meaning of Dec (trusted): replacing the pair by the rule's two operators lowers the potential of the chain;
+            # replacing it by fewer operators never raises it
+            run.assume(z3.And(pot(ar, nr) >= 0, pot(a0, n0) >= 0,
+                              z3.Implies(z3.And(nn == 2, Dec(r_, l_, rr_)), pot(ar, nr) < pot(a0, n0))))
         for lem in (lem_split(a0, 0, lo, n0), lem_split(a0, lo, hi, n0), z3.Implies(hi == lo + 2, lem_pair(a0, lo)),
                     z3.Implies(hi == lo + 1, lem_single(a0, lo)),
                     lem_split(ar, 0, lo, nr), lem_split(ar, lo, lo + nn, nr),
